@@ -187,6 +187,11 @@ func par2Cycle(r *Run, o cycleOpts) {
 	for i := 0; i < nd; i++ {
 		kinds = append(kinds, w.DamageData(r, enabled))
 	}
+	if w.SharedLate && t.Bool(1, 2, "lose-the-big-file") {
+		w.Disk.Remove(w.Path(0))
+		kinds = append(kinds, "delete")
+		r.Logf("damage delete %q", w.Files[0].Name)
+	}
 	recDeleted := 0
 	if t.Bool(1, 2, "lose-recovery") {
 		recDeleted = w.DeleteRecovery(r)
@@ -540,5 +545,30 @@ func (w *World) grow16k(r *Run) {
 	w.Files[0].Data = data
 	w.Disk.Put(w.Path(0), data)
 	r.Probe("file>=16KiB")
+	if len(w.Files) > 1 && w.S >= 256 && t.Bool(1, 2, "share-late-slices") {
+		// another file repeats a few of the big file's slices that lie
+		// beyond its first 16 KiB; the set has enough recovery blocks to
+		// rebuild the big file as a whole
+		first := 16384/w.S + 1
+		n0 := len(data) / w.S
+		other := 1 + t.Draw(len(w.Files)-1, "share-with")
+		od := append([]byte(nil), w.Files[other].Data...)
+		if n0 > first {
+			w.N -= (len(od) + w.S - 1) / w.S
+			for c := 0; c < 1+t.Draw(3, "n-shared"); c++ {
+				k := first + t.Draw(n0-first, "late-slice")
+				od = append(od[:len(od)/w.S*w.S], data[k*w.S:(k+1)*w.S]...)
+			}
+			od = append(od, expandContent(ckRandom, t.Draw64(0, "tail-seed"), t.Draw(w.S, "tail"), w.S)...)
+			w.Files[other].Data = od
+			w.Disk.Put(w.Path(other), od)
+			w.N += (len(od) + w.S - 1) / w.S
+			if need := (len(data) + w.S - 1) / w.S; w.R < need && t.Bool(2, 3, "enough-blocks") {
+				w.R = need + t.Draw(3, "spare")
+			}
+			w.SharedLate = true
+			r.Probe("late-slices-shared-with-another-file")
+		}
+	}
 	r.Logf("grow16k file0=%d bytes N=%d", size, w.N)
 }
